@@ -531,7 +531,12 @@ func C17(r *report.Report, tier string) {
 	}
 	crec(nil, cdepth)
 	states := map[string]bool{"": true}
-	par.Map("c17.seq", jobs, par.Options{UlimitV: 12 << 20}, func(i int, res *par.Result) {
+	par.Map("c17.seq", jobs, par.Options{Deadline: Deadline, UlimitV: 12 << 20}, func(i int, res *par.Result) {
+		if res.Skipped {
+			r.Exhaustive = false
+			r.Add("jobs_not_run_time_budget", 1)
+			return
+		}
 		a := jobs[i].(sSeqArg)
 		if res.Crashed || res.Err != "" {
 			r.Violate(report.Violation{Sig: "worker-died|" + a.Ops[len(a.Ops)-1].String(), Detail: "history: " + sHist(a.Ops) + "\n" + res.Err + tail(res.Stderr, 3000), Replay: map[string]interface{}{"job": "c17.seq", "arg": a}})
